@@ -8,6 +8,7 @@ ThreadPool.map does (CPython 3.12 multiprocessing/pool.py; Coq model: Conc/Pool.
     next batch when they are free;
   * an item that raises an `Exception` aborts the REST OF ITS BATCH; every batch still runs;
   * the first failure TO ARRIVE is stored and re-raised once all batches are done;
+  * an item that raises StopIteration (or a subclass) ends its batch SILENTLY (mapstar is list(map(fn, batch)));
   * a BaseException that is not an Exception kills the worker: the real pool then never returns
     (known finding C20 pooled:non-Exception-interrupt-hangs); DetPool raises `PoolWouldHang`.
 
@@ -173,6 +174,9 @@ def make_det_pool(ctl):
                                 sys.settrace(tracer_for(tid))
                             try:
                                 results[i] = fn(items[i])
+                            except StopIteration:            # pool.py mapstar = list(map(fn, batch)): a StopIteration out of
+                                sys.settrace(None)           # fn silently ENDS THE BATCH - nothing is relayed (verified on the
+                                break                        # real ThreadPool; known finding C20 pooled:StopIteration-swallowed)
                             except Exception as e:           # what pool.worker relays
                                 sys.settrace(None)
                                 sched.yield_point(tid)      # failures may arrive in any order
